@@ -147,7 +147,7 @@ class VCSAPI:
     def status(self, required_files: typ.Set[str]) -> typ.List[str]:
         """Get status lines."""
         status_output = self('status')
-        status_items  = [line.split(" ", 1) for line in status_output.splitlines()]
+        status_items  = [line.strip().split(" ", 1) for line in status_output.splitlines()]
 
         return [
             filepath.strip()
